@@ -4,7 +4,7 @@
     the trusted base of the translator tie (it says what the translated Python
     constructs mean); it is cross-checked by the correspondence check, which does
     not go through it. *)
-From InToto.Model Require Import Base Json.
+From InToto.Model Require Import Base Json Utf8.
 
 Inductive pyval :=
 | VNone
@@ -365,3 +365,39 @@ Fixpoint py_fold_items {S : Type} (l : list (pyval * pyval)) (st : S) (body : py
   end.
 Definition py_for_items {S : Type} (d : pyval) (st : S) (body : pyval -> pyval -> S -> res S) : res S :=
   match d with VDict l => py_fold_items l st body | _ => Err EAttribute end.
+
+(** list.sort() on strings: code-point lexicographic order (insertion sort; stable) *)
+Fixpoint insert_str (x : str) (l : list str) : list str :=
+  match l with
+  | [] => [x]
+  | y :: l' => if lex_leb x y then x :: l else y :: insert_str x l'
+  end.
+Fixpoint sort_strs (l : list str) : list str :=
+  match l with [] => [] | x :: l' => insert_str x (sort_strs l') end.
+
+Fixpoint as_strs (l : list pyval) : option (list str) :=
+  match l with
+  | [] => Some []
+  | VStr s :: r => match as_strs r with Some t => Some (s :: t) | None => None end
+  | _ :: _ => None
+  end.
+
+Definition py_sort (v : pyval) : res pyval :=
+  match v with
+  | VList l => match as_strs l with Some ss => Ok (VList (map VStr (sort_strs ss))) | None => Err EUnmodelled end
+  | _ => Err EAttribute
+  end.
+
+(** sep.join(list of str) *)
+Fixpoint join_strs (sep : str) (l : list str) : str :=
+  match l with
+  | [] => []
+  | [x] => x
+  | x :: r => x ++ sep ++ join_strs sep r
+  end.
+Definition py_join (sep v : pyval) : res pyval :=
+  match sep, v with
+  | VStr s, VList l => match as_strs l with Some ss => Ok (VStr (join_strs s ss)) | None => Err ETypeError end
+  | VStr _, _ => Err EUnmodelled
+  | _, _ => Err EAttribute
+  end.
